@@ -449,3 +449,128 @@ func ZZ_C04_ServerCall() {
 func ZZ_Recover(e any) status.Status {
 	return status.Status{Code: status.CodeError, Message: "panic"}
 }
+
+// ---- server side: consecutive calls through the pooled server state ------------------------------------------
+
+type zzStreamPlan struct {
+	msgs [][]byte
+	end  bool
+	res  *zzRef
+}
+
+type zzStreamHandler struct {
+	plans  []zzStreamPlan
+	calls  int
+	sendOK bool
+}
+
+func (h *zzStreamHandler) Handle(ctx Context, ch ServerChannel) (ref.R[[]byte], status.Status) {
+	p := h.plans[h.calls]
+	h.calls++
+	for _, m := range p.msgs {
+		if !ch.Send(ctx, m).OK() {
+			h.sendOK = false
+		}
+	}
+	if p.end {
+		if !ch.SendEnd(ctx).OK() {
+			h.sendOK = false
+		}
+	}
+	return p.res, status.OK
+}
+
+// ZZ_C04_ServerStream: NC consecutive streaming calls served by one server (so the pooled server
+// channel state is reused): every call's handler streams up to 2 messages, optionally ends the
+// stream explicitly, and returns a result. Each caller sees exactly its own call's messages in
+// order, at most one end marker after them, then the response with that call's result; the
+// handler's sends succeed whatever an earlier call did.
+func ZZ_C04_ServerStream() {
+	nc := zzverif.Param("NC")
+	h := &zzStreamHandler{sendOK: true}
+	for i := 0; i < nc; i++ {
+		p := zzStreamPlan{end: zzverif.Bool(), res: &zzRef{b: []byte{zzverif.Byte(), 3}}}
+		for k := zzverif.Choice(3); k > 0; k-- {
+			p.msgs = append(p.msgs, zzverif.Bytes(1))
+		}
+		h.plans = append(h.plans, p)
+	}
+	srv := &server{handler: h, logger: &zzLog{}}
+	for i := 0; i < nc; i++ {
+		w := prpc.NewRequestWriter()
+		cl := w.Calls()
+		c := cl.Add()
+		c.Method("m")
+		zzverif.Assume(c.End() == nil && cl.End() == nil)
+		req, err := w.Build()
+		zzverif.Assume(err == nil)
+		m, err := builder{}.buildRequest(ZZ_AcquireBuffer(), req)
+		zzverif.Assume(err == nil)
+		ch := &zzChan{in: [][]byte{append([]byte{}, m.Unwrap().Raw()...)}, final: status.End, wait: make(chan struct{})}
+		st := srv.HandleChannel(mpx.ClosedContext(), ch)
+		zzverif.Assert(st.OK(), "call failed on the server")
+		zzverif.Assert(h.calls == i+1, "handler must run exactly once per request")
+		zzverif.Assert(h.sendOK, "a handler's Send/SendEnd failed although its own call had sent no end")
+		p := h.plans[i]
+		k := 0
+		for _, want := range p.msgs {
+			zzverif.Assert(k < len(ch.sent), "streamed message missing")
+			f, _, err := prpc.ParseMessage(ch.sent[k])
+			zzverif.Assert(err == nil && f.Type() == prpc.MessageType_Message && string(f.Msg()) == string(want), "streamed message is not this call's, in order")
+			k++
+		}
+		if p.end {
+			zzverif.Assert(k < len(ch.sent), "end marker missing")
+			f, _, err := prpc.ParseMessage(ch.sent[k])
+			zzverif.Assert(err == nil && f.Type() == prpc.MessageType_End, "end marker expected after the messages")
+			k++
+		}
+		zzverif.Assert(k == len(ch.sent)-1 && ch.closedSend, "exactly one closing response frame after the stream")
+		f, _, err := prpc.ParseMessage(ch.sent[k])
+		zzverif.Assert(err == nil && f.Type() == prpc.MessageType_Response, "closing frame is a response")
+		res, rst := parseResult(f.Resp())
+		zzverif.Assert(rst.OK() && string(res) == string(p.res.b), "caller must get this call's result")
+		zzverif.Assert(p.res.released == 1, "result reference released exactly once")
+	}
+	zzverif.Reach("done")
+}
+
+// ZZ_C04_RequestBuilder: request builders go through a state pool. A request is begun with A calls
+// and then built or abandoned, freed, and the next request (B calls) is built: the built request
+// contains exactly the calls added to it, in order, and nothing of the earlier one.
+func ZZ_C04_RequestBuilder() {
+	add := func(r *Request, n int) []string {
+		var ms []string
+		for i := 0; i < n; i++ {
+			m := zzverif.String(1)
+			ms = append(ms, m)
+			zzverif.Assert(r.AddEmpty(m).OK(), "add call")
+		}
+		return ms
+	}
+	check := func(req prpc.Request, want []string, what string) {
+		calls := req.Calls()
+		zzverif.Assert(calls.Len() == len(want), what+": number of calls differs from the calls added")
+		for i := range want {
+			zzverif.Assert(i < calls.Len() && string(calls.Get(i).Method()) == want[i], what+": call is not the one added")
+		}
+	}
+	r1 := NewRequest()
+	m1 := add(r1, zzverif.Choice(3))
+	if zzverif.Bool() {
+		req, st := r1.Build()
+		zzverif.Assert(st.OK(), "build")
+		check(req, m1, "first request")
+		zzverif.Reach("built-first")
+	} else {
+		zzverif.Reach("abandoned-first")
+	}
+	r1.Free()
+	r2 := NewRequest()
+	m2 := add(r2, 1+zzverif.Choice(2))
+	req, st := r2.Build()
+	zzverif.Assert(st.OK(), "build")
+	check(req, m2, "second request")
+	r2.Free()
+	zzverif.Reach("done")
+}
